@@ -72,7 +72,7 @@ package router
 //@             && len(resp.Questions[0].Name) == len(m.Questions[0].Name)
 //@             && bytesEq(resp.Questions[0].Name, 0, m.Questions[0].Name, 0, len(m.Questions[0].Name))
 //@   ensures [C12:no-opt] len(resp.Answers) == 0 && len(resp.Authorities) == 0 && len(resp.Additionals) == 0
-//@   ensures [C20:own-arrays] (resp.Questions == nil || fresh(resp.Questions)) && (resp.Answers == nil || fresh(resp.Answers)) && (resp.Authorities == nil || fresh(resp.Authorities)) && (resp.Additionals == nil || fresh(resp.Additionals))
+//@   ensures [C20:own-objects] ownSecs(resp)
 
 //@ func makeEmptyResp(q *dnsmsg.Question, rc *RequestContext, rcode uint16)
 //@   props C03 C10 C12 C01
@@ -80,6 +80,7 @@ package router
 //@   modifies rc.Response.Msg
 //@   ensures rc.Response.Msg != nil && fresh(rc.Response.Msg) && wfMsg(rc.Response.Msg)
 //@   ensures rc.Response.Msg.Additionals == nil || fresh(rc.Response.Msg.Additionals)
+//@   ensures [C20:own-objects] ownSecs(rc.Response.Msg)
 //@   ensures [C10:rcode] rc.Response.Msg.RCode == dnsmsg.RCode(rcode)
 //@   ensures [C03:one-question] len(rc.Response.Msg.Questions) == 1
 //@             && rc.Response.Msg.Questions[0].Type == q.Type && rc.Response.Msg.Questions[0].Class == q.Class
@@ -233,6 +234,7 @@ package router
 //@   aftercall Decode?: gd = ret0
 //@   modifies nothing
 //@   ensures err == nil ==> r != nil && fresh(r) && wfMsg(r) && freshElems(r)
+//@   ensures [C20:own-objects] err == nil ==> ownSecs(r)
 //@   ensures err != nil ==> r == nil
 //@   callsite Decode?: [C07:decodes-the-stored-bytes] sameSlice(arg1, m, 0, len(m))
 //@   callsite UnpackMsg?: [C07:decodes-the-stored-bytes] sameSlice(arg0, gd, 0, len(gd))
@@ -254,6 +256,7 @@ package router
 //@   modifies rc.Response.IpMark
 //@   ensures m != nil ==> fresh(m) && wfMsg(m) && len(m.Questions) <= 1 && noOPT(m.Additionals) && (m.Additionals == nil || fresh(m.Additionals)) && len(m.Questions) <= 65535 && len(m.Answers) <= 65535 && len(m.Authorities) <= 65535 && len(m.Additionals) <= 65535
 //@   ensures [C08:served-copy-is-aged-once] m != nil ==> nSub == 1 && m == gm
+//@   ensures [C20:own-objects] m != nil ==> ownSecs(m)
 //@   callsite ipMark: [C07:client-group-of-this-client] arg1 == rc.RemoteAddr.ip
 //@   callsite cacheKey?: [C07:key-of-this-question-and-group] arg0 == q && arg1 == gmark
 //@   callsite Get?: [C07:lookup-under-that-key] arg0 == c.memory ==> sameSlice(arg1, gkey, 0, len(gkey))
@@ -329,6 +332,7 @@ package router
 //@   ensures err == nil ==> resp != nil && fresh(resp) && wfMsg(resp) && noOPT(resp.Additionals) && (resp.Additionals == nil || fresh(resp.Additionals)) && len(resp.Questions) <= 65535 && len(resp.Answers) <= 65535 && len(resp.Authorities) <= 65535 && len(resp.Additionals) <= 65535
 //@   ensures err != nil ==> resp == nil
 //@   ensures [C10:at-most-one-exchange] nEx <= 1
+//@   ensures [C20:own-objects] err == nil ==> ownSecs(resp)
 //@   ensures [C03:reply-is-about-the-question-asked] err == nil ==> len(resp.Questions) <= 1
 // (checked where the reply is accepted; RemoveEDNS0 afterwards touches additional records only)
 //@   callsite RemoveEDNS0?: [C03:reply-is-about-the-question-asked] len(arg0.Questions) <= 1 && (len(arg0.Questions) == 1 ==> sameQuestionCI(arg0.Questions[0], q))
@@ -341,6 +345,7 @@ package router
 //@   modifies rc.Response.Msg, rc.Response.RuleIdx, rc.Response.Cached, rc.Response.IpMark, obj(r.prefetch.queue), field(limiter.e), field(time.Time)
 //@   ensures rc.Response.Msg != nil && fresh(rc.Response.Msg) && wfMsg(rc.Response.Msg)
 //@   ensures [C03:at-most-one-question] len(rc.Response.Msg.Questions) <= 1
+//@   ensures [C20:own-objects] ownSecs(rc.Response.Msg)
 //@   ensures [C12:no-upstream-opt] noOPT(rc.Response.Msg.Additionals)
 //@   ensures rc.Response.Msg.Additionals == nil || fresh(rc.Response.Msg.Additionals)
 //@   ensures len(rc.Response.Msg.Questions) <= 65535 && len(rc.Response.Msg.Answers) <= 65535 && len(rc.Response.Msg.Authorities) <= 65535 && len(rc.Response.Msg.Additionals) <= 65535
@@ -381,7 +386,7 @@ package router
 //@   requires r.queryCacheHitTotal != nil && r.logger != nil && r.prefetch != nil && r.prefetch.queue != nil && r.prefetchTotal != nil && r.ctx != nil && limOK(r.limiter)
 //@   modifies rc.Response.Msg, rc.Response.RuleIdx, rc.Response.Cached, rc.Response.IpMark, obj(r.prefetch.queue), field(limiter.e), field(time.Time)
 //@   ensures rc.Response.Msg != nil && wfMsg(rc.Response.Msg)
-//@   ensures [C20:response-is-its-own-object] rc.Response.Msg != m && (rc.Response.Msg.Additionals == nil || fresh(rc.Response.Msg.Additionals))
+//@   ensures [C20:response-is-its-own-object] rc.Response.Msg != m && fresh(rc.Response.Msg) && ownSecs(rc.Response.Msg)
 //@   ensures [C09:packable] optSmall(rc.Response.Msg) && smallMsg(rc.Response.Msg)
 //@   ensures [C03:header] rc.Response.Msg.ID == old(m.ID) && rc.Response.Msg.Response && rc.Response.Msg.OpCode == old(m.OpCode)
 //@             && rc.Response.Msg.RecursionAvailable && rc.Response.Msg.RecursionDesired == old(m.RecursionDesired)
@@ -403,6 +408,7 @@ package router
 //@   requires m != nil && wfMsg(m) && smallMsg(m)
 //@   modifies m.Additionals, obj(m.Additionals)
 //@   ensures [C20:own-array-kept] m.Additionals == nil || sameObj(m.Additionals, old(m.Additionals)) || fresh(m.Additionals)
+//@   ensures [C20:no-record-added] len(m.Additionals) <= old(len(m.Additionals)) && (err == nil ==> len(m.Additionals) == old(len(m.Additionals)))
 //@   ensures wfMsg(m)
 //@   ensures err == nil ==> b != nil && fresh(b) && rootObj(b) && len(b) >= 12
 //@   ensures err != nil ==> b == nil
@@ -414,6 +420,7 @@ package router
 //@   requires m != nil && wfMsg(m) && smallMsg(m)
 //@   modifies m.Additionals, obj(m.Additionals)
 //@   ensures [C20:own-array-kept] m.Additionals == nil || sameObj(m.Additionals, old(m.Additionals)) || fresh(m.Additionals)
+//@   ensures [C20:no-record-added] len(m.Additionals) <= old(len(m.Additionals)) && (err == nil ==> len(m.Additionals) == old(len(m.Additionals)))
 //@   ensures wfMsg(m)
 //@   ensures err == nil ==> b != nil && fresh(b) && rootObj(b) && len(b) >= 14
 //@   ensures err != nil ==> b == nil
@@ -425,7 +432,8 @@ package router
 //@   requires query != nil && wfMsg(query)
 //@   requires resp == nil || (wfMsg(resp) && smallMsg(resp))
 //@   requires [C20:query-not-yet-released] !attr(released, query)
-//@   modifies pkgheaps(dnsmsg), bytes()
+//@   modifies resp.Additionals, obj(resp.Additionals)
+//@   ensures [C20:response-keeps-its-objects] resp != nil ==> wfMsg(resp) && (resp.Additionals == nil || sameObj(resp.Additionals, old(resp.Additionals)) || fresh(resp.Additionals))
 //@   ensures [C03:always-a-response] b != nil && len(b) >= (tcp ? 14 : 12)
 //@   ensures [C09:limit] !tcp && size >= 512 && (resp == nil || old(optSmall(resp))) ==> len(b) <= (size > 65535 ? 65535 : size)
 //@   ensures [C13:framed] tcp && (resp == nil || old(optSmall(resp))) ==> BE16(b, 0) == uint16(len(b) - 2) && len(b) - 2 <= 65535
@@ -441,9 +449,9 @@ package router
 //@   requires r.queryCacheHitTotal != nil && r.logger != nil && r.queryTotal != nil && r.prefetch != nil && r.prefetch.queue != nil && r.prefetchTotal != nil && r.ctx != nil && limOK(r.limiter)
 //@   modifies *
 //@   ensures [C03:always-a-response] rc.Response.Msg != nil && wfMsg(rc.Response.Msg)
-//@   ensures [C20:response-is-its-own-object] rc.Response.Msg != m && (rc.Response.Msg.Additionals == nil || fresh(rc.Response.Msg.Additionals))
+//@   ensures [C20:response-is-its-own-object] rc.Response.Msg != m && fresh(rc.Response.Msg) && ownSecs(rc.Response.Msg)
 //@   ensures [C09:packable] optSmall(rc.Response.Msg) && smallMsg(rc.Response.Msg)
-//@   ensures wfMsg(m) && m.Additionals == old(m.Additionals) && m.Answers == old(m.Answers) && m.Authorities == old(m.Authorities)
+//@   ensures wfMsg(m) && m.Additionals == old(m.Additionals) && m.Answers == old(m.Answers) && m.Authorities == old(m.Authorities) && m.Questions == old(m.Questions)
 
 // ---- listeners: one response write per handled request ------------------------------------------------
 
@@ -465,6 +473,9 @@ package router
 //@   onassign clientUdpSize in loop 1: lastOpt = rangeindex
 //@   modifies *
 //@   ensures [C03:exactly-one-write] nW == 1
+//@   ensures [C20:query-left-to-its-owner] wfMsg(m)
+//@   ensures [C20:response-is-its-own-object] rc.Response.Msg != nil && rc.Response.Msg != m && fresh(rc.Response.Msg) && wfMsg(rc.Response.Msg)
+//@   ensures [C20:response-shares-no-section-with-the-query] sepMsgs(rc.Response.Msg, m)
 //@   callsite mustHaveRespB: [C09:udp-size-arg] arg3 == false && arg4 >= 512 && noOPT(m.Additionals) ==> arg4 == 512
 //@   callsite mustHaveRespB: [C09:udp-size-arg-opt] forall(k, 0, len(m.Additionals), lastOPTAt(m, k) ==> arg4 == (int(ptrOf(m.Additionals[k], dnsmsg.ResourceHdr).Class) < 512 ? 512 : int(ptrOf(m.Additionals[k], dnsmsg.ResourceHdr).Class)))
 //@   callsite writeResp: [C09:udp-limit] len(arg1) >= 12 && len(arg1) <= clientUdpSize
@@ -482,6 +493,9 @@ package router
 //@   oncall Write: nW = nW + 1
 //@   modifies *
 //@   ensures [C03:exactly-one-write] nW == 1
+//@   ensures [C20:query-left-to-its-owner] wfMsg(m)
+//@   ensures [C20:response-is-its-own-object] rc.Response.Msg != nil && rc.Response.Msg != m && fresh(rc.Response.Msg) && wfMsg(rc.Response.Msg)
+//@   ensures [C20:response-shares-no-section-with-the-query] sepMsgs(rc.Response.Msg, m)
 //@   callsite Write: [C03,C13:one-framed-write] len(arg1) >= 14 && len(arg1) - 2 <= 65535 && BE16(arg1, 0) == uint16(len(arg1) - 2)
 
 // the refresh goroutine: releases its private question and the reservation exactly once, on every path
@@ -648,10 +662,13 @@ package router
 //@   trusted
 //@   modifies nothing
 //@   ensures rc != nil && fresh(rc) && rc.Response.Msg == nil
+// releaseRequestContext: gives back the context and the response it carries - that message, its section arrays and
+// the records in them, nothing else (in particular not the query the response answers).
 //@ func releaseRequestContext(rc *RequestContext)
-//@   trusted
-//@   requires rc != nil
-//@   modifies *rc, pkgheaps(dnsmsg), bytes()
+//@   props C20
+//@   requires rc != nil && (rc.Response.Msg != nil ==> wfMsg(rc.Response.Msg))
+//@   modifies *rc, *rc.Response.Msg, obj(rc.Response.Msg.Questions), obj(rc.Response.Msg.Answers), obj(rc.Response.Msg.Authorities), obj(rc.Response.Msg.Additionals), elems(rc.Response.Msg.Questions), elems(rc.Response.Msg.Answers), elems(rc.Response.Msg.Authorities), elems(rc.Response.Msg.Additionals)
+//@   ensures [C20:response-released-with-its-context] old(rc.Response.Msg) != nil ==> attr(released, old(rc.Response.Msg))
 
 // bytes gnet holds for the connection and has not yet handed to OnTraffic (uninterpreted; >= 0)
 //@ spec func gnetBuffered(c gnet.Conn) int
@@ -759,11 +776,51 @@ package router
 //@   trusted
 //@   modifies nothing
 
+// udpServer.handleMsg (one datagram): a decodable query is charged (cost 1) to the client's address; when the
+// limiter refuses it the client gets exactly one REFUSED datagram and the query is not handled; otherwise it is
+// handed to exactly one goroutine and nothing is written here. Undecodable datagrams are dropped.
+//@ func (s *udpServer) handleMsg(b []byte, oob []byte, remoteAddr netip.AddrPort, listenerAddr netip.AddrPort)
+//@   props C15 C03
+//@   requires s != nil && routerReady(s.r) && s.logger != nil
+//@   ghost gM *dnsmsg.Msg = nil
+//@   ghost gB pool.Buffer = nil
+//@   ghost gAdm error = nil
+//@   ghost nAsk int = 0
+//@   ghost nW int = 0
+//@   ghost nGo int = 0
+//@   aftercall UnpackMsg: gM = ret0
+//@   oncall limiterAllowN: nAsk = nAsk + 1
+//@   aftercall limiterAllowN: gAdm = ret0
+//@   aftercall mustHaveRespB?: gB = ret0
+//@   oncall writeResp?: nW = nW + 1
+//@   oncall go: nGo = nGo + 1
+//@   modifies *
+//@   ensures [C15:refused-query-answered-refused-and-not-handled] nAsk == 1 && gAdm != nil ==> nW == 1 && nGo == 0
+//@   ensures [C15,C03:admitted-query-handled-once] nAsk == 1 && gAdm == nil ==> nW == 0 && nGo == 1
+//@   ensures nAsk <= 1 && (nAsk == 0 ==> nW == 0 && nGo == 0)
+//@   callsite limiterAllowN: [C15:query-cost-charged-to-the-client] arg0 == s.r && arg1 == remoteAddr.ip && arg2 == 1
+//@   callsite mustHaveRespB?: [C15:refused-answer] arg0 == gM && arg1 == nil && arg2 == dnsmsg.RCodeRefused && arg3 == false
+//@   callsite writeResp?: [C15:refused-answer-goes-to-the-client] arg1 == gB && arg2 == remoteAddr
+
+// the per-query goroutine of the UDP listener: one answer, then the query and its context are given back
+//@ closure udpServer.handleMsg$1
+//@   props C03 C20
+//@   requires s != nil && routerReady(s.r) && m != nil && wfMsg(m) && rc != nil
+//@   requires [C20:query-owned-by-the-goroutine] !attr(released, m)
+//@   ghost nH int = 0
+//@   ghost nRel int = 0
+//@   oncall handleReq: nH = nH + 1
+//@   oncall ReleaseMsg: nRel = nRel + 1
+//@   modifies *
+//@   ensures [C03:answered-once] nH == 1 && nRel == 1
+//@   callsite handleReq: [C03:this-query] arg0 == s && arg1 == m && arg2 == rc
+//@   callsite ReleaseMsg: [C20:released-after-the-answer] nH == 1 && arg0 == m
+
 // tcpServer.run (accept loop, TCP and DoT): every accepted connection is charged - 15 for TLS, 3 for plain TCP -
 // to its remote address; a refused connection is closed and never handled.
 //@ func (s *tcpServer) run() (err error)
 //@   props C15
-//@   requires s != nil && s.r != nil && s.l != nil && s.logger != nil && limOK(s.r.limiter)
+//@   requires s != nil && routerReady(s.r) && s.l != nil && s.logger != nil
 //@   noterm
 //@   ghost gConn net.Conn = nil
 //@   ghost gRemote net.Addr = nil
@@ -784,7 +841,7 @@ package router
 //@   callsite Close: [C15:only-refused-connections-are-closed] arg0 == gConn && nAsk == 1 && gAdm != nil
 //@   loop 1:
 //@     modifies *
-//@     invariant s != nil && s.r != nil && s.l != nil && s.logger != nil && r == s.r && limOK(r.limiter)
+//@     invariant s != nil && routerReady(s.r) && s.l != nil && s.logger != nil && r == s.r
 
 // tcpServer.handleConn (read loop of one connection): every query read is answered - either by its own
 // goroutine, or, when the connection already has maxConcurrent queries in flight or the limiter refuses the
@@ -801,6 +858,9 @@ package router
 //@   ghost nAns int = 0
 //@   aftercall ReadMsgFromTCP: gM = ret0
 //@   aftercall ReadMsgFromTCP: gAdm = nil
+//@   ghost nAsk int = 0
+//@   aftercall ReadMsgFromTCP: nAsk = 0
+//@   oncall limiterAllowN: nAsk = nAsk + 1
 //@   aftercall ReadMsgFromTCP: nQ = nQ + (ret2 == nil ? 1 : 0)
 //@   aftercall Add: gCC = ret0
 //@   aftercall limiterAllowN: gAdm = ret0
@@ -812,10 +872,35 @@ package router
 //@   callsite limiterAllowN: [C15:query-cost-charged-to-the-client] arg0 == s.r && arg2 == 2
 //@   callsite mustHaveRespB: [C13,C15:refused-answer] arg0 == gM && arg1 == nil && arg2 == dnsmsg.RCodeRefused && arg3 == true
 //@   callsite Write: [C13:over-limit-or-refused-by-the-limiter] arg1 == gB && len(arg1) >= 14 && BE16(arg1, 0) == uint16(len(arg1) - 2)
-//@   callsite go: [C13,C15:refused-query-not-handled] gAdm == nil
+//@   callsite go: [C13,C15:refused-query-not-handled] gCC <= s.maxConcurrent && nAsk == 1 && gAdm == nil
 //@   loop 1:
 //@     modifies *
 //@     invariant s != nil && routerReady(s.r) && s.logger != nil && c != nil && br != nil && nAns == nQ
+
+// the per-connection goroutine: handles exactly the connection that was admitted
+//@ closure tcpServer.run$1
+//@   props C15
+//@   requires s != nil && routerReady(s.r) && s.logger != nil && c != nil
+//@   modifies *
+//@   callsite handleConn: [C15:the-admitted-connection] arg0 == s && arg1 == c
+
+// the per-query goroutine: one answer; the query message and the request context are given back after the answer
+// was written, and the connection's in-flight slot after that.
+//@ closure tcpServer.handleConn$1
+//@   props C13 C20
+//@   requires s != nil && routerReady(s.r) && s.logger != nil && c != nil && m != nil && wfMsg(m) && rc != nil
+//@   requires [C20:query-owned-by-the-goroutine] !attr(released, m)
+//@   ghost nH int = 0
+//@   ghost nRel int = 0
+//@   ghost nDec int = 0
+//@   oncall handleReq: nH = nH + 1
+//@   oncall ReleaseMsg: nRel = nRel + 1
+//@   oncall Add: nDec = nDec + 1
+//@   modifies *
+//@   ensures [C13:answered-once-and-slot-returned-once] nH == 1 && nRel == 1 && nDec == 1
+//@   callsite handleReq: [C13:this-query-on-this-connection] arg0 == s && arg1 == c && arg2 == m && arg3 == rc
+//@   callsite ReleaseMsg: [C20:released-after-the-answer] nH == 1 && arg0 == m
+//@   callsite Add: [C13:slot-returned-after-the-answer] nH == 1 && arg1 == -1
 
 // quicServer.run (accept loop): every accepted connection is charged to its REMOTE address; a refused one is
 // closed and never handled.
